@@ -246,6 +246,9 @@ class Deriv:
         return [len(self.alternatives(str(s))) for s in prod.prod if str(s) not in self.terms]
 
 
+COINCIDE_IDS = ('Id1', 'ID1')
+
+
 class Pools:
     """symbolic values handed to the value-carrying tokens in textual order; beyond the pool, concrete defaults"""
     def __init__(self, ints=(), ids=(), strs=(), fl=0, var=0):
@@ -253,6 +256,16 @@ class Pools:
         self.fl, self.var = fl, var
         self.digits = '3'           # text of INTEGER tokens that are not under the nonterminal `integer`
         self.used = []
+        # the coinciding-names vocabulary (every ID is the same name in another letter case) also re-spells the keyword-like words the
+        # grammar accepts as names (CREATE TABLE create (Create ...)): lexers ignore case, token values keep the spelling
+        self.word_case = (self.ids == list(COINCIDE_IDS))
+        self._nword = 0
+
+    def word(self, text):
+        if not self.word_case or not text.replace('_', '').isalpha():
+            return text
+        self._nword += 1
+        return (text.upper(), text.lower(), text.capitalize())[self._nword % 3]
 
     def lexeme(self, term):
         if term == 'INTEGER':
@@ -303,7 +316,7 @@ def evaluate(parser, node, pools, rep, depth=0):
         else:
             t = Token()
             t.type, t.lineno, t.index, t.end = c, 1, 0, 1
-            t.value = rep.get(c, c)
+            t.value = pools.word(rep.get(c, c))
             vals.append(t)
     return apply_action(parser, node.prod, vals)
 
@@ -318,5 +331,5 @@ def text_of(node, pools, lexemes):
         elif c in VALUE_TERMINALS:
             out.append(pools.lexeme(c))
         else:
-            out.append(lexemes.get(c, c))
+            out.append(pools.word(lexemes.get(c, c)))
     return ' '.join(x for x in out if x != '')
